@@ -772,9 +772,151 @@ def syspath_order_cases(scratch, uid):
     return out
 
 
+def import_history_cases(scratch, uid):
+    """import_module_from_path depends on process STATE (sys.modules): histories in which the same file is
+    already loaded under ANOTHER name, is imported twice, is imported again after sys.modules was cleaned, or
+    two different files carry the same module name. "Returns the module of that name": the result is the
+    module whose __name__ is modpath_to_modname(path), it is sys.modules[that name], its __file__ is the file."""
+    import importlib.util
+    u = ui()
+    out = []
+    root = os.path.join(scratch, 'hist')
+    pkg, leaf, top = 'xv17h%s_pkg' % uid, 'xv17h%s_leaf' % uid, 'xv17h%s_top' % uid
+    same = 'xv17h%s_same' % uid
+    script = '\n'.join([
+        'import json, os, sys',
+        'X = %r',
+        "if __name__ == '__main__':",
+        '    from xdoctest.utils import util_import',
+        '    before = list(sys.path)',
+        '    path = os.path.abspath(__file__)',
+        '    m = util_import.import_module_from_path(path)',
+        "    print(json.dumps({'name': m.__name__, 'file': os.path.abspath(m.__file__), 'is_main': m is sys.modules['__main__'],",
+        "                      'registered': sys.modules.get(util_import.modpath_to_modname(path)) is m,",
+        "                      'expected': util_import.modpath_to_modname(path), 'syspath_same': list(sys.path) == before}))",
+        ''])
+    gt.write_tree(root, {'files': {
+        pkg + '/__init__.py': "X = 'pkg'\n", pkg + '/' + leaf + '.py': script % 'leaf', pkg + '/sub/__init__.py': "X = 'sub'\n",
+        pkg + '/sub/deep.py': "X = 'deep'\n", top + '.py': script % 'top',
+        'd1/' + same + '.py': "X = 'd1'\n", 'd2/' + same + '.py': "X = 'd2'\n"}, 'dirs': []})
+    saved = list(sys.path)
+    path_obj = sys.path
+    before_mods = set(sys.modules)
+
+    def clean():
+        for k in set(sys.modules) - before_mods:
+            del sys.modules[k]
+        importlib.invalidate_caches()
+
+    def rec(case, bad, expected='', impl=''):
+        out.append({'case': case, 'expected': expected, 'impl': impl, 'bad': None if not bad else '%s: %s' % (case, bad)})
+
+    def imp(path, case, name, origin, **kw):
+        """one call + the checks every call must satisfy; returns the module (or None)"""
+        before = list(sys.path)
+        try:
+            m = u.import_module_from_path(path, **kw)
+        except Exception as ex:
+            rec(case, 'raised %s' % type(ex).__name__, 'module ' + name, repr(ex)[:200])
+            return None
+        want = (name, os.path.join(root, origin))
+        got = (getattr(m, '__name__', None), os.path.abspath(getattr(m, '__file__', '') or ''))
+        own = u.modpath_to_modname(path)
+        bad = None
+        if sys.path is not path_obj or list(sys.path) != before:
+            bad = 'sys.path changed'
+        elif got != want:
+            bad = 'returned module %r from %r' % got
+        elif own != name:
+            bad = 'modpath_to_modname(path) = %r' % own
+        elif sys.modules.get(name) is not m:
+            bad = 'the returned module is not sys.modules[%r]' % name
+        rec(case, bad, 'module %r from %r, registered under that name' % want, '%r' % (got,))
+        return m
+
+    try:
+        leaf_path = os.path.join(root, pkg, leaf + '.py')
+        leaf_name, leaf_origin = pkg + '.' + leaf, pkg + '/' + leaf + '.py'
+        # H1: the file was imported earlier under its SHORT name through a search entry inside the package
+        sys.path.insert(0, os.path.join(root, pkg))
+        alias = importlib.import_module(leaf)
+        sys.path[:] = saved
+        m = imp(leaf_path, 'file already loaded under its short name (search entry inside the package)', leaf_name, leaf_origin)
+        if m is not None and m is alias:
+            rec('alias identity', 'the module loaded under the short name %r was returned' % leaf)
+        m2 = imp(leaf_path, 'same path again (alias still loaded)', leaf_name, leaf_origin)
+        if m is not None and m2 is not None:
+            rec('second import of the same path returns the same module object', None if m2 is m else 'another object')
+        clean()
+        # H2: the file is loaded under an arbitrary other name / as __main__-like module (spec_from_file_location)
+        for alias_name in ('xv17h%s_alias' % uid, '__xv17h%s_main__' % uid):
+            spec = importlib.util.spec_from_file_location(alias_name, leaf_path)
+            am = importlib.util.module_from_spec(spec)
+            sys.modules[alias_name] = am
+            spec.loader.exec_module(am)
+            m = imp(leaf_path, 'file already loaded under the name %s' % alias_name.replace(uid, ''), leaf_name, leaf_origin)
+            if m is not None and m is am:
+                rec('alias identity', 'the module loaded as %r was returned' % alias_name)
+            clean()
+        # H3: twice, then after sys.modules was cleaned, with every way of naming the package
+        deep_path = os.path.join(root, pkg, 'sub', 'deep.py')
+        a = imp(deep_path, 'first import', pkg + '.sub.deep', pkg + '/sub/deep.py')
+        b = imp(deep_path, 'second import of the same path', pkg + '.sub.deep', pkg + '/sub/deep.py', index=0)
+        if a is not None and b is not None:
+            rec('second import returns the cached module', None if a is b else 'another object')
+        p1 = imp(os.path.join(root, pkg), 'package by directory', pkg, pkg + '/__init__.py')
+        p2 = imp(os.path.join(root, pkg, '__init__.py'), 'package by its __init__.py', pkg, pkg + '/__init__.py')
+        if p1 is not None and p2 is not None:
+            rec('directory and __init__.py give the same package object', None if p1 is p2 else 'another object')
+        if a is not None and p1 is not None:
+            rec('the parent package of the first import is the package', None if sys.modules.get(pkg) is p1 else 'another object')
+        clean()
+        c = imp(deep_path, 'import after sys.modules was cleaned', pkg + '.sub.deep', pkg + '/sub/deep.py')
+        if a is not None and c is not None:
+            rec('after the cleanup the file is executed again (new object)', None if c is not a else 'the stale object came back')
+        clean()
+        # H4: two different files with the same module name (cf. K-C10-c: the cached module of that NAME is returned)
+        s1 = imp(os.path.join(root, 'd1', same + '.py'), 'first of two files with the same module name', same, 'd1/' + same + '.py')
+        try:
+            s2 = u.import_module_from_path(os.path.join(root, 'd2', same + '.py'))
+            ok = s2.__name__ == same and (s2 is s1 or os.path.abspath(s2.__file__) == os.path.join(root, 'd2', same + '.py'))
+            rec('second of two files with the same module name: the module of that name (cached, K-C10-c) or the new file',
+                None if ok else 'returned %r from %r' % (s2.__name__, s2.__file__))
+        except Exception as ex:
+            rec('second of two files with the same module name', 'raised %r' % (ex,))
+        clean()
+        imp(os.path.join(root, 'd2', same + '.py'), 'second file after sys.modules was cleaned', same, 'd2/' + same + '.py')
+        clean()
+        # H5: the script the interpreter was started with imports its own path (child processes)
+        for case, rel, name in (('script inside a package imports its own path', pkg + '/' + leaf + '.py', leaf_name),
+                                ('top-level script imports its own path', top + '.py', top)):
+            proc = subprocess.run([sys.executable, os.path.join(root, rel)], stdout=subprocess.PIPE, stderr=subprocess.PIPE,
+                                  env=dict(os.environ, PYTHONDONTWRITEBYTECODE='1'), cwd=scratch, timeout=300)
+            try:
+                import json
+                got = json.loads(proc.stdout.decode().strip().split('\n')[-1])
+            except Exception:
+                rec(case, 'the child failed: %s' % proc.stderr.decode()[-300:])
+                continue
+            want = {'name': name, 'file': os.path.join(root, rel), 'is_main': False, 'registered': True, 'expected': name, 'syspath_same': True}
+            rec(case, None if got == want else 'returned the module %r (is __main__: %s)' % (got.get('name'), got.get('is_main')), repr(want), repr(got))
+    finally:
+        sys.path[:] = saved
+        clean()
+        for kk in list(sys.path_importer_cache):
+            if 'xdocverif-' in kk:
+                del sys.path_importer_cache[kk]
+    return out
+
+
 def import_suite(ctx, corr, n):
     scratch0 = tempfile.mkdtemp(prefix='xdocverif-')
     try:
+        for pr in import_history_cases(scratch0, '%d_%d' % (os.getpid(), ctx.seed)):
+            corr.count('import_module_from_path:histories (sys.modules state)')
+            corr.nontriv(('imph', pr['case']))
+            if pr.get('bad'):
+                corr.expect_fail('eager-oracle:IMPH', {'api': 'IMPH'}, pr['expected'], pr['impl'], pr['bad'])
         for pr in syspath_order_cases(os.path.join(scratch0, 'order'), '%d_%d' % (os.getpid(), ctx.seed)):
             corr.count('sys.path exact before/after (directory already listed)')
             corr.nontriv(('spo', pr['case']))
@@ -1266,6 +1408,12 @@ def check_case_(inp):
             _run_suite(inp['suite'], core.Ctx('C17', 'quick', 0), c2)     # under the watchdog of check_case
             for e in c2.expect_failures:
                 return {'api': 'suite ' + inp['suite'], 'observed': e['impl'], 'expected': e['expected'], 'why': e['why']}
+            return None
+        if api == 'IMPH':
+            for pr in import_history_cases(scratch, 'r%d' % os.getpid()):
+                if pr.get('bad'):
+                    return {'api': 'import_module_from_path after a history of imports', 'observed': pr['impl'],
+                            'expected': pr['expected'], 'why': pr['bad']}
             return None
         if api == 'SPO':
             for pr in syspath_order_cases(os.path.join(scratch, 'order'), 'r%d' % os.getpid()):
